@@ -458,8 +458,6 @@ pub fn base_plan(rng: &mut Rng) -> Plan {
     let mut p = Plan::empty(rng.next_u64());
     p.version = (*rng.pick(&["0.23.5", "0.21.11", "0.24", "0.19.0~git x"])).to_string();
     p.connect_via_opt = rng.chance(1, 8);
-    // half of the runs execute with TRACE logging switched on
-    p.tracing = rng.chance(1, 2);
     p
 }
 
@@ -1096,11 +1094,6 @@ pub fn shrink_plan(plan: &Plan) -> Vec<Plan> {
     if plan.connect_via_opt {
         let mut p = plan.clone();
         p.connect_via_opt = false;
-        push(p);
-    }
-    if plan.tracing {
-        let mut p = plan.clone();
-        p.tracing = false;
         push(p);
     }
     // long runs of change events: halve
